@@ -106,6 +106,10 @@ def build_fragment(f, cls, tag, exact_dir=None):
             m.connect(ix(ai), ix(anchor), btype=bt)
         else:
             m.connect(ix(anchor), ix(ai), btype=bt)
+    for j in range(f.get("loose", 0)):
+        # atoms that belong to the fragment without being bonded to it (a counter-ion, explicit solvent, a dummy atom)
+        from molli.chem import Element
+        m.add_atom(Atom(element=[17, 11, 0][j % 3], label=f"{tag}X{j}", atype=AtomType.Dummy if j % 3 == 2 else AtomType.Regular), coords.mean(axis=0) + np.array([2.5 + j, -1.5, 0.75 * (j + 1)]))
     return m, [ix(ai) for ai, _ in aps]
 
 
@@ -149,7 +153,7 @@ def check_one_join(A, B, apA, apB, kw, cls, where, fails, determinism=True, name
     # numerical tolerance: 1e-6 for double-precision classes.  For a single-precision class the general-position formula
     # R = I + K + K^2/(1+c) amplifies the 1e-7 rounding of the inputs by 1/(1+c): the geometric clauses are asserted with 2e-3 x
     # magnitude, and not at all where the two attachment vectors are nearly (but not exactly) antiparallel (1+c < 1e-2)
-    f32 = np.asarray(A.coords).dtype == np.float32
+    f32 = np.asarray(A.coords).dtype == np.float32 or np.asarray(B.coords).dtype == np.float32 or getattr(cls, "_coords_dtype", None) == np.float32
     TOL = 1e-6 if not f32 else 2e-3 * max(1.0, float(np.nanmax(np.abs(A.coords))) if A.n_atoms else 1.0, float(np.nanmax(np.abs(B.coords))) if B.n_atoms else 1.0)
     a1, a2 = A.atoms[apA], B.atoms[apB]
     a1r = next(A.connected_atoms(a1))
@@ -321,8 +325,8 @@ def check_join(r) -> list[Fail]:
     else:
         # A may carry a second attachment point (left over in the product), its attachment atoms may come first in the atom list
         # (index 0 is then an attachment atom), and the one that is used may be an ordinary terminal H while the other one is typed
-        A, apsA = build_fragment(dict(r["A"], aps=r["A"]["aps"][:2], ap_first=r.get("ap_first"), ap_plain=r.get("ap_plain")), cls, "a")
-        B, apsB = build_fragment(dict(r["B"], aps=r["B"]["aps"][:2], ap_first=r.get("ap_first_b")), cls, "b")      # (B may be a linker with a second, still open attachment point)
+        A, apsA = build_fragment(dict(r["A"], aps=r["A"]["aps"][:2], ap_first=r.get("ap_first"), ap_plain=r.get("ap_plain"), loose=r.get("loose_a", 0)), cls, "a")
+        B, apsB = build_fragment(dict(r["B"], aps=r["B"]["aps"][:2], ap_first=r.get("ap_first_b"), loose=r.get("loose_b", 0)), cls, "b")      # (B may be a linker with a second, still open attachment point; it may come with non-bonded atoms)
     fails: list[Fail] = []
     wrapped = None
     if r.get("wrapped"):
@@ -378,7 +382,7 @@ def _frag(max_n, n_aps=(1, 1)):
 def strat_join(tier):
     return st.fixed_dictionaries({
         "cls": st.sampled_from(["Molecule", "Molecule", "Structure", "Molecule32"]), "A": _frag(10, (1, 2)), "B": _frag(10, (1, 2)),
-        "ap_first": st.booleans(), "ap_first_b": st.booleans(), "ap_plain": st.booleans(),
+        "ap_first": st.booleans(), "ap_first_b": st.booleans(), "ap_plain": st.booleans(), "loose_a": st.sampled_from([0, 0, 0, 1]), "loose_b": st.sampled_from([0, 0, 1, 2, 3]),
         "dist": st.one_of(st.none(), st.floats(0.8, 3.0)), "opt": st.booleans(),
         "charge": st.one_of(st.none(), st.none(), st.just(0), st.integers(-3, 3)), "mult": st.one_of(st.none(), st.integers(1, 5)),
         "name": st.one_of(st.none(), st.just("product")),
